@@ -22,6 +22,9 @@ Stutter == UNCHANGED <<vars, idx>>
 ObsKeepsRecent == EvKeepsRecent(E)
 ObsKeepsLocked == EvKeepsLocked(E)
 ObsKeepsBuffer == EvKeepsBuffer(E)
+\* the file infos of the node cover the blocks stored in the files (L.after = the file infos at the observation, L.heights = the heights
+\* of the blocks the harness saw stored in each file; a pruned file has size 0)
+ObsFileInfoCovers == \A f \in 1..Len(L.after) : (L.after[f].size > 0 /\ f <= Len(L.heights)) => \A x \in ToSet(L.heights[f]) : L.after[f].hf <= x /\ x <= L.after[f].hl
 \* the same without the height-0 / height-1 corner of the clamps (see Prune.tla); violated = a violation outside the known corner
 ObsKeepsRecentX == EvKeepsRecentX(E)
 ObsKeepsLockedX == EvKeepsLockedX(E)
